@@ -430,7 +430,8 @@ def releaseHeldActive (s : State) (x : Proxy) : State :=
   let s :=
     if x.held then
       let y := x.reset (held := some false)
-      let y := if !y.runahead && y.isReadyToRun then y.reset (queued := some true) else y
+      -- `queue_if_ready` (not a manually triggered task: it is on its way to job submission already)
+      let y := if !y.queued && !y.runahead && !y.manual && y.isReadyToRun then y.reset (queued := some true) else y
       s.put y
     else s
   { s with tasksToHold := s.tasksToHold.filter (· != (x.name, x.pt)) }
@@ -934,8 +935,10 @@ def triggeredProxy (x : Proxy) : Proxy :=
   let z := if y.queued then y.reset (queued := some false) else y
   { z with wjp := true }
 
-/-- `queue_or_trigger` on a pooled proxy -/
+/-- `queue_or_trigger` on a pooled proxy; one that is waiting on job preparation already (triggered before and
+not yet prepared) only gets the flag -/
 def queueOrTrigger (s : State) (x : Proxy) : State :=
+  if x.wjp then s.put { x with manual := true } else
   let s := s.put (triggeredProxy x)
   if s.toTrigger.contains (x.pt, x.name) then s else { s with toTrigger := s.toTrigger ++ [(x.pt, x.name)] }
 
